@@ -13,3 +13,11 @@ package luastrings
 //@   modifies nothing
 //@   ensures p >= 0 ==> result == p
 //@   ensures p < 0 ==> result == len(s) + 1 + p
+
+// Line-end normalisation goes through regexp when the text contains a carriage
+// return; without one the text is returned unchanged (assumed; the regexp path
+// is not verified).
+//@ func NormalizeNewLines
+//@   trusted
+//@   modifies nothing
+//@   ensures bytes.IndexByte(b, 13) == -1 ==> result == b
